@@ -241,8 +241,8 @@ def r4_holding(ctx, rule="C02.R4"):
         ctx.check(generic_in_T and "::holding::" in marker_ty, rule, fn.key, "placeholder-per-type",
                   "the placeholder type %s is not a function-local type parameterised by T: nested holding() calls for different types would share one "
                   "placeholder key and put their states back into each other's scope" % marker_ty, detail=marker_ty, loc=fn.loc())
-    # ---- semantics over scope placements
-    LEVELS = 3
+    # ---- semantics over scope placements: the typed store of statemodel (three scopes), every registry accessor answered
+    import statemodel
     bad = []
     n = 0
     reg_i = F.field_index("mahf::state::State", "registry")
@@ -250,57 +250,32 @@ def r4_holding(ctx, rule="C02.R4"):
     for placement in (None, 0, 1, 2):
         for outcome in ("ok", "err", "shadow"):
             n += 1
+            store = statemodel.Store(F, levels=3, auto=lambda ty: {})
+            for lvl in range(3):
+                store.cell("T", lvl, Sym("the-T") if lvl == placement else statemodel.ABSENT)
 
-            def oracle(interp, env, f, args, t, bb, path, outcome=outcome):
-                k = f.get("key", "")
-                nm = f.get("name")
-                ga = (f.get("gargs") or [None])[0]
+            def oracle(interp, env, f, args, t, bb, path, outcome=outcome, store=store):
                 ms = interp.mstate
-                if k.startswith(R) and ga in ("T", marker_ty):
-                    which = "t" if ga == "T" else "m"
-                    holders = list(ms.get(which, ()))
-                    recv = load(interp, env, args[0]) if args else None
-                    lvl = int(recv.tag[4:]) if isinstance(recv, Sym) and recv.tag.startswith("reg:") else None
-                    if lvl is None:
-                        return TOP
-                    # a registry symbol `reg:L` stands for scope L and everything below it (its parents): L = 0 is the top
-                    visible = [h for h in holders if h >= lvl]
-                    if nm in ("find_mut", "find"):
-                        return ok(Sym("reg:%d" % min(visible))) if visible else err(Sym("StateError::NotFound"))
-                    if nm in ("contains", "has"):
-                        return bool(visible)
-                    if nm == "contains_at_top":
-                        return lvl in holders
-                    if nm == "insert":
-                        old = lvl in holders
-                        if not old:
-                            holders.append(lvl)
-                        ms[which] = tuple(sorted(holders))
-                        ms["log"] = ms.get("log", ()) + (("insert", which, lvl),)
-                        return some(Sym("displaced")) if old else NONE
-                    if nm in ("remove", "take", "try_remove"):
-                        if not visible:
-                            return err(Sym("StateError::NotFound")) if nm != "take" else "DIVERGE"
-                        holders.remove(min(visible))
-                        ms[which] = tuple(sorted(holders))
-                        ms["log"] = ms.get("log", ()) + (("remove", which, min(visible)),)
-                        v = Sym("the-T" if which == "t" else "the-marker")
-                        return v if nm == "take" else ok(v)
-                    return TOP
                 if f.get("name") in ("call_once", "call") and args and isinstance(load(interp, env, args[0]), Sym) and load(interp, env, args[0]).tag == "user-closure":
-                    ms["closure_saw"] = (tuple(ms.get("t", ())), tuple(ms.get("m", ())))
+                    have = ms.get("have", ())
+                    ms["closure_saw"] = (tuple(l for (ty, l) in have if ty == "T"), tuple((ty, l) for (ty, l) in have if ty != "T"))
+                    got = load(interp, env, args[1]) if len(args) > 1 else None
+                    if isinstance(got, Agg) and got.kind == "tuple" and got.fields:
+                        got = load(interp, env, got.fields[0])
+                    ms["closure_got"] = repr(got)
                     if outcome == "shadow":
-                        ms["t"] = tuple(sorted(set(ms.get("t", ())) | {0}))       # the closure inserts its own T into the top scope
+                        store.put(interp, env, "T", 0, Sym("the-closure's-own-T"))       # the closure inserts its own T into the top scope
                     return err(Sym("closure-error")) if outcome == "err" else ok(Agg("tuple", None, None, []))
                 return TOP
             vals = [Sym("phantom")] * nf
             vals[reg_i] = Sym("reg:0")
             home = 11001
-            inl = lambda k: k.startswith("mahf::state::State::") or k.startswith("<mahf::state::State")
-            it = install(Interp(body, chain(oracle, coll_oracle, std_oracle), [Ref(home, [], frame="root"), Sym("user-closure")], facts=F, inline=inl, max_visits=8))
+            inl = lambda k: k.startswith("mahf::state::State::") or k.startswith("<mahf::state::State") or statemodel.inline(k)
+            it = install(Interp(body, chain(oracle, store, coll_oracle, std_oracle), [Ref(home, [], frame="root"), Sym("user-closure")], facts=F, inline=inl, max_visits=8))
             it.extra_env = {home: Agg("adt", "mahf::state::State", "State", vals)}
-            it.init_state = {"t": (placement,) if placement is not None else (), "m": ()}
-            where = ("nowhere" if placement is None else ["the top scope", "the parent scope", "the grandparent scope"][placement], {"ok": "succeeds", "err": "fails", "shadow": "succeeds after inserting its own T on top"}[outcome])
+            it.init_state = {}
+            store.install(it)
+            where = ("nowhere" if placement is None else ["the top scope", "the parent scope", "the grandparent scope"][placement], {"ok": "succeeds", "err": "fails", "shadow": "succeeds after inserting a T of its own into the top scope"}[outcome])
             paths = it.run()
             if len(paths) != 1:
                 bad.append(where + ("is not decided (%d paths: %s)" % (len(paths), sorted({p.end for p in paths})),))
@@ -308,9 +283,11 @@ def r4_holding(ctx, rule="C02.R4"):
             p0 = paths[0]
             ms = p0.mstate
             res = p0.ret.variant if isinstance(p0.ret, Agg) else p0.end
+            t_in = store.holders(p0, "T")
+            others = sorted((ty, l) for (ty, l) in ms.get("have", ()) if ty != "T")
             if placement is None:
-                if res != "Err" or ms.get("t") or ms.get("m") or "closure_saw" in ms:
-                    bad.append(where + ("returns %s with T in %s / placeholder in %s (an absent T must be an error that changes nothing)" % (res, ms.get("t"), ms.get("m")),))
+                if res != "Err" or t_in or others or "closure_saw" in ms:
+                    bad.append(where + ("returns %s with T in %s / placeholder in %s (an absent T must be an error that changes nothing)" % (res, t_in, others),))
                 continue
             saw = ms.get("closure_saw")
             if saw is None:
@@ -318,11 +295,15 @@ def r4_holding(ctx, rule="C02.R4"):
                 continue
             if placement in saw[0]:
                 bad.append(where + ("runs the closure while T is still in the state",))
+            elif "the-T" not in ms.get("closure_got", ""):
+                bad.append(where + ("hands the closure %s, not the T it took out" % ms.get("closure_got"),))
             want_t = {placement} | ({0} if outcome == "shadow" else set())
-            if set(ms.get("t", ())) != want_t:
-                bad.append(where + ("leaves T in scopes %s, expected %s (back where it came from)" % (sorted(ms.get("t", ())), sorted(want_t)),))
-            elif ms.get("m"):
-                bad.append(where + ("leaves the placeholder behind in scope(s) %s" % (list(ms.get("m")),),))
+            if set(t_in) != want_t:
+                bad.append(where + ("leaves T in scopes %s, expected %s (back where it came from)" % (t_in, sorted(want_t)),))
+            elif store.value(p0, "T", placement) != Sym("the-T"):
+                bad.append(where + ("leaves %s in the scope T came from, not the T that was taken out" % (store.value(p0, "T", placement),),))
+            elif others:
+                bad.append(where + ("leaves the placeholder behind in scope(s) %s" % ([l for (_ty, l) in others],),))
             elif res != ("Err" if outcome == "err" else "Ok"):
                 bad.append(where + ("returns %s" % res,))
     ctx.check(not bad, rule, fn.key, "put-back-where-it-came-from", "T held in %s, closure %s: holding() %s" % (bad[0] if bad else ("", "", "")), detail="%d scenarios" % n, loc=fn.loc())
